@@ -15,6 +15,7 @@ LEVEL = 'exploration'
 
 ALPHABET = ['a', 'b', '%', '_', '.', '*', '\\', '[', '(', '^', '$', '+', '?', '|']
 SPECIAL = set(ALPHABET) - {'a', 'b'}
+QUANT_ALPHABET = ['a', '{', '}', '1', '2', ',', '%', '_']
 NEWLINE_ALPHABET = ['a', '%', '_', '\n', '\r', '\u2028', '\x85']
 EXTRA_META = [')', ']', '{', '}', '-', '#', ' ', '&', '~', '/', "'", '"']
 
@@ -32,6 +33,7 @@ def plan(tier, seed):
     specs += [{'kind': 'js-exh', 'k': 8, 'i': i} for i in range(8)]
     specs += [{'kind': 'random', 'i': i, 'n': RANDOM_PAIRS[tier] // 8} for i in range(8)]
     specs += [{'kind': 'newlines', 'engine': e} for e in ('py', 'js')]
+    specs += [{'kind': 'quantifiers', 'engine': e} for e in ('py', 'js')]
     if tier == 'thorough':
         specs += [{'kind': 'derived', 'k': 32, 'i': i} for i in range(32)]
     return specs
@@ -204,16 +206,21 @@ def run_shard(spec, res):
                 res.violation('js-async-noise', 'unhandled rejection / warning in node: %r' % noise[:3], {'engine': 'js', 'noise': noise[:3]})
         finally:
             node.close()
-    elif kind == 'newlines':
-        # line breaks are characters like any other (multi-line cells come from quoted_rfc files, lists, dataframes): exhaustive small leg
-        texts = [''.join(t) for t in enum.words(NEWLINE_ALPHABET, 3)]
-        pats = [''.join(t) for t in enum.words(NEWLINE_ALPHABET, 3 if tier == 'quick' else 4)]
+    elif kind in ('newlines', 'quantifiers'):
+        # newlines: line breaks are characters like any other (multi-line cells come from quoted_rfc files, lists, dataframes)
+        # quantifiers: literal text that a regular expression would read as a repetition count ({2}, {1,}) or a class / group fragment
+        if kind == 'newlines':
+            texts = [''.join(t) for t in enum.words(NEWLINE_ALPHABET, 3)]
+            pats = [''.join(t) for t in enum.words(NEWLINE_ALPHABET, 3 if tier == 'quick' else 4)]
+        else:
+            pats = [''.join(t) for t in enum.words(QUANT_ALPHABET, 5)] if tier == 'thorough' else [''.join(t) for t in enum.words(QUANT_ALPHABET, 4)] + ['a{1,2}', 'a{2}%', '%{2}', '_{2}', 'a{1,}', '{1}a', 'a{2}{2}', 'ab{2}', 'a{,2}']
+            texts = [''.join(t) for t in enum.words(['a', '{', '}', '1', '2', ','], 3)] + ['aa', 'aaa', 'a{2}', 'a{1,2}', 'abb', 'ab{2}', 'a{1,}', '{1}a', 'a{2}x', 'aaaa', 'a{,2}']
         res.distinct_disjoint += len(texts) * len(pats)
         if spec['engine'] == 'py':
             batch = [[t, p] for p in pats for t in texts]
             for off in range(0, len(batch), 50000):
-                run_pairs_py(ns, res, batch[off:off + 50000], where=(off // 50000) % 3 == 2, tag='newlines')
-            res.count('py_newline_pairs', len(batch))
+                run_pairs_py(ns, res, batch[off:off + 50000], where=(off // 50000) % 3 == 2, tag=kind)
+            res.count('py_%s_pairs' % kind[:-1], len(batch))
         else:
             from ..js import bridge
             node = bridge.Node.start()
@@ -223,8 +230,8 @@ def run_shard(spec, res):
             try:
                 step = max(1, 60000 // len(texts))
                 for off in range(0, len(pats), step):
-                    run_cross_js(node, res, texts, pats[off:off + step], where=(off // step) % 3 == 2, tag='newlines')
-                res.count('js_newline_pairs', len(texts) * len(pats))
+                    run_cross_js(node, res, texts, pats[off:off + step], where=(off // step) % 3 == 2, tag=kind)
+                res.count('js_%s_pairs' % kind[:-1], len(texts) * len(pats))
             finally:
                 node.close()
     elif kind == 'random':
@@ -282,7 +289,7 @@ def summarize(tier, seed, m):
             PAT_LEN[tier], TXT_LEN[tier], ''.join(ALPHABET), JS_PAT_LEN[tier], JS_TXT_LEN[tier], RANDOM_PAIRS[tier],
             '; every length-5 pattern containing a wildcard (and 1/7 of the others) against texts derived from it (wildcard instantiations and their single-symbol edits)' if tier == 'thorough' else ''),
         'exhaustive': True,
-        'required': ['py_exhaustive_pairs', 'py_random_pairs', 'py_newline_pairs'],
+        'required': ['py_exhaustive_pairs', 'py_random_pairs', 'py_newline_pairs', 'py_quantifier_pairs'],
         'assumptions': ['rv.model.refcsv.like is SQL LIKE', 'single-line texts only (no LF, CR, NEL, LS, PS), as quantified'],
     }
 
